@@ -86,6 +86,7 @@ func (ll *lazyValueList) ForEach(f func(wire.Value) error) error {
 
 func (ll *lazyValueList) Close() {
 	ll.readerAt = nil
+	verifPool("lazylist", "put", ll, ll.readerAt == nil)
 	lazyValueListPool.Put(ll)
 }
 
@@ -141,5 +142,6 @@ func (lm *lazyMapItemList) ForEach(f func(wire.MapItem) error) error {
 
 func (lm *lazyMapItemList) Close() {
 	lm.readerAt = nil
+	verifPool("lazymap", "put", lm, lm.readerAt == nil)
 	lazyMapItemListPool.Put(lm)
 }
